@@ -633,6 +633,20 @@ fn refusals<C: Suite>(o: &mut Outcome, tag: &str, ctx: &str, node: &Node<C>, see
             Err(e) => o.fail(format!("{tag}/MACHINERY-dkg-intruder"), e),
         }
     }
+    // (a') exactly one member (each position) runs part one with t+1 / t-1: every honest member must fail
+    for (pos, dev) in members.iter().enumerate() {
+        for tt in [t + 1, t - 1] {
+            if tt < 2 {
+                continue;
+            }
+            o.count("transitions", 1);
+            match dkg_refresh_one_deviating_threshold::<C>(node, &members, *dev, tt, &format!("refusal-1t:{seed}")) {
+                Ok(true) => o.fail(format!("{tag}/dkg-one-peer-threshold-change-accepted"), format!("{ctx}: member at position {pos} used threshold {tt} instead of {t} and an honest member completed the refresh")),
+                Ok(false) => o.count("refusals_refused", 1),
+                Err(e) => o.fail(format!("{tag}/MACHINERY-dkg-1t"), e),
+            }
+        }
+    }
     // (c) a member contributes a polynomial with non-zero constant term
     {
         let cheat = members[0];
@@ -644,6 +658,62 @@ fn refusals<C: Suite>(o: &mut Outcome, tag: &str, ctx: &str, node: &Node<C>, see
             Err(e) => o.fail(format!("{tag}/MACHINERY-dkg-nz"), e),
         }
     }
+}
+
+/// Distributed refresh in which `dev` alone uses threshold `tt`. Ok(true) if an honest member completed.
+fn dkg_refresh_one_deviating_threshold<C: Suite>(node: &Node<C>, parts: &[Id<C>], dev: Id<C>, tt: u16, seed: &str) -> Result<bool, String> {
+    let n = parts.len() as u16;
+    let t = node.t;
+    let mut sp1 = BTreeMap::new();
+    let mut p1 = BTreeMap::new();
+    for id in parts {
+        let mut rng = ScriptedRng::ctr(format!("{seed}:{}", id_hex::<C>(id)));
+        let used = if *id == dev { tt } else { t };
+        match C::w_refresh_dkg_part1(*id, std::cmp::max(n, used), used, &mut rng) {
+            Ok((s, p)) => {
+                sp1.insert(*id, s);
+                p1.insert(*id, p);
+            }
+            Err(_) => return Ok(false), // the deviating parameters are refused outright
+        }
+    }
+    let mut sp2 = BTreeMap::new();
+    let mut p2: BTreeMap<Id<C>, BTreeMap<Id<C>, d2::Package<C>>> = BTreeMap::new();
+    for id in parts {
+        let r1 = others::<C, _>(&p1, id);
+        if let Ok((s, p)) = C::w_refresh_dkg_part2(sp1[id].clone(), &r1) {
+            sp2.insert(*id, s);
+            p2.insert(*id, p);
+        } else if *id == dev {
+            // the deviating peer does not stop at its own part2: it evaluates its polynomial for everyone
+            let coeffs = sp1[id].coefficients();
+            let m: BTreeMap<Id<C>, d2::Package<C>> = parts
+                .iter()
+                .filter(|x| *x != id)
+                .map(|x| (*x, d2::Package::new(fc::keys::SigningShare::<C>::from_coefficients(&coeffs, *x))))
+                .collect();
+            p2.insert(*id, m);
+        }
+    }
+    let mut any = false;
+    for id in parts {
+        if *id == dev || !sp2.contains_key(id) {
+            continue;
+        }
+        let r1 = others::<C, _>(&p1, id);
+        let mut r2 = BTreeMap::new();
+        for (sender, m) in &p2 {
+            if sender != id {
+                if let Some(p) = m.get(id) {
+                    r2.insert(*sender, p.clone());
+                }
+            }
+        }
+        if C::w_refresh_dkg_shares(&sp2[id], &r1, &r2, node.pkp.clone(), node.kps[id].clone()).is_ok() {
+            any = true;
+        }
+    }
+    Ok(any)
 }
 
 /// Distributed refresh in which `odd` behaves specially: if `nonzero` it is a member using a
